@@ -5,6 +5,7 @@ import (
 	"io"
 	"log"
 	"os"
+	"strings"
 
 	"verif.local/harness/ev"
 )
@@ -17,6 +18,13 @@ func main() {
 	ev.Main("C17", "exploration",
 		"Part 1: generated stores of 8-14 blobs (four templates: files/bytes trees, deletions, split directories, decoys; share claims transitive or not, expired/far-expiry/none, deleted, undeleted, foreign authType, search); EVERY request chain via=b1..bk + target with k<=3 over the store's blobs plus one unknown ref is issued with GET and HEAD against the share handler over the live index and over an index re-opened on a copy of its rows (POST/PUT/DELETE and assemble=1 on samples), and compared with a reachability model written from the statement; distinct = (store, chain) with a share claim at the head. Part 2: one child process per generated server configuration x credential-requiring auth mode; every installed prefix x endpoint table x method is requested without credentials (must be refused, leak no canary, change no state) and with credentials (must not be refused for lack of auth); distinct = (configuration, method, path)",
 		run)
+}
+
+// selected reports whether the store / configuration named id takes part in this run: always,
+// unless a replay (VERIF_ONLY = case id "<store or config>;...") names another one.
+func selected(id string) bool {
+	only := os.Getenv("VERIF_ONLY")
+	return only == "" || only == id || strings.HasPrefix(only, id+";")
 }
 
 func run(r *ev.Run) {
